@@ -647,10 +647,11 @@ impl PlutusList {
     }
 
     pub(crate) fn deduplicated_view(&self) -> Vec<&PlutusData> {
+        // two datums are the same element of the set when they are written as the same bytes
         let mut dedup = BTreeSet::new();
         let mut datas = Vec::new();
         for elem in &self.elems {
-            if dedup.insert(elem) {
+            if dedup.insert(elem.to_bytes()) {
                 datas.push(elem);
             }
         }
@@ -664,10 +665,11 @@ impl PlutusList {
     }
 
     pub(crate) fn deduplicated_clone(&self) -> Self {
+        // two datums are the same element of the set when they are written as the same bytes
         let mut dedup = BTreeSet::new();
         let mut elems = Vec::new();
         for elem in &self.elems {
-            if dedup.insert(elem) {
+            if dedup.insert(elem.to_bytes()) {
                 elems.push(elem.clone());
             }
         }
